@@ -18,8 +18,8 @@ theorem mask_nonempty (i : Inst) (s : State) : ∃ a, a < env.nAct i ∧ env.mas
   by_cases h : (s.cur == 0 && anyCust i s) = true
   · simp only [Bool.and_eq_true, anyCust, List.any_eq_true, List.mem_range] at h
     obtain ⟨_, k, hk, hl⟩ := h
-    exact ⟨k + 1, by simp [env]; omega, by simp [env, mask, hl]⟩
-  · exact ⟨0, by simp [env], by simp only [env, mask, if_true]; cases hh : (s.cur == 0 && anyCust i s) <;> simp_all⟩
+    exact ⟨k + 1, by simp [env]; omega, by simp [env, mask_def, hl]⟩
+  · exact ⟨0, by simp [env], by simp only [env, mask_def, if_true]; cases hh : (s.cur == 0 && anyCust i s) <;> simp_all⟩
 
 /-- (2) A finished instance never becomes unfinished again (whatever is stepped). -/
 theorem done_stable (i : Inst) (s : State) (a : Nat) (hd : env.done i s = true) :
@@ -31,7 +31,7 @@ theorem done_stable (i : Inst) (s : State) (a : Nat) (hd : env.done i s = true) 
     simp only [upd_apply]; split
     · rfl
     · exact hall j hj
-  simpa [env, done, step, Params.mtvrpDoneCmp, Cmp.evalNat] using this
+  simpa [env, done, step_def, Params.mtvrpDoneCmp, Cmp.evalNat] using this
 
 /-- number of unvisited customers -/
 def unvisited (i : Inst) (s : State) : Nat := cnt i.n (fun k => !s.vis (k + 1))
@@ -45,7 +45,7 @@ theorem unvisited_step_customer (i : Inst) (s : State) (a : Nat) (h0 : a ≠ 0) 
   unfold unvisited
   have : (fun k => !(step i s a).vis (k + 1)) = upd (fun k => !s.vis (k + 1)) (a - 1) false := by
     funext k
-    simp only [step, upd_apply]
+    simp only [step_def, upd_apply]
     by_cases hk : k + 1 = a
     · have : k = a - 1 := by omega
       rw [if_pos hk, if_pos this]; rfl
@@ -60,7 +60,7 @@ theorem unvisited_step_depot (i : Inst) (s : State) : unvisited i (step i s 0) =
   unfold unvisited
   apply cnt_congr
   intro j _
-  simp [step]
+  simp [step_def]
 
 /-- every admitted step from an unfinished state strictly decreases the measure -/
 theorem mu_decreases (i : Inst) (hwf : wf i = true) (s : State) (a : Nat) (hinv : Fresh s)
@@ -70,7 +70,7 @@ theorem mu_decreases (i : Inst) (hwf : wf i = true) (s : State) (a : Nat) (hinv 
   by_cases h0 : a = 0
   · subst h0
     have hu := unvisited_step_depot i s
-    simp only [mask, if_true, Bool.not_eq_true', Bool.and_eq_false_iff] at hm
+    simp only [mask_def, if_true, Bool.not_eq_true', Bool.and_eq_false_iff] at hm
     by_cases hc : s.cur = 0
     · -- at the depot with no customer offered: all customers are visited, so the depot is unvisited
       have hany : anyCust i s = false := by
@@ -98,16 +98,16 @@ theorem mu_decreases (i : Inst) (hwf : wf i = true) (s : State) (a : Nat) (hinv 
           simp [done, Params.mtvrpDoneCmp, Cmp.evalNat, this] at hd
         · simpa using hv
       simp only [mu, hu]
-      simp [step, hc, hv0]
+      simp [step_def, hc, hv0]
     · simp only [mu, hu]
-      simp only [step, upd_same]
+      simp only [step_def, upd_same]
       simp [hc]
       split <;> omega
   · have hv := (adm_of_mask i s a h0 hm).vis
     have hu := unvisited_step_customer i s a h0 ha hv
     simp only [mu]
     have hv0 : (step i s a).vis 0 = s.vis 0 := by
-      simp only [step, upd_apply]
+      simp only [step_def, upd_apply]
       have : (0 : Nat) ≠ a := fun h => h0 h.symm
       simp [this]
     rw [hv0]
